@@ -23,7 +23,7 @@ EXPLANATION = (
     "(R5) the per-node metadata the validators read (defaults, annotations) cannot be stale: cached views are invalidated by renames, through "
     "the MRO; (R6) strict type validation visits every value of every data edge, rejects a missing annotation on either side and asks "
     "is_type_compatible(output type, input type) in that argument order; (R7) the shared-output check compares every unordered pair of producers "
-    "(the 'ordered' relation is not transitive). (R8) gate-kind exhaustiveness: wherever a concrete gate class is tested with isinstance, the classes tested for that variable cover every concrete gate kind or the variable is then used through an attribute only the tested class declares — a validator narrowed from GateNode to one kind silently skips the others. (R9) the Union rule of strict type checking calls get_args on a type only on paths where that type is known to be a Union (a parameterised generic is never split into its type arguments), and the generic rule answers 'compatible' after taking both sides' type arguments only for an unparameterised side or by the pairwise comparison."
+    "(the 'ordered' relation is not transitive). (R8) gate-kind exhaustiveness: wherever a concrete gate class is tested with isinstance, the classes tested for that variable cover every concrete gate kind or the variable is then used through an attribute only the tested class declares — a validator narrowed from GateNode to one kind silently skips the others. (R9) the Union rule of strict type checking calls get_args on a type only on paths where that type is known to be a Union (a parameterised generic is never split into its type arguments), and the generic rule answers 'compatible' after taking both sides' type arguments only for an unparameterised side or by the pairwise comparison. (R10) no validator narrows a check to data outputs (emit names are outputs too)."
 )
 NOT_DECIDED = "The type-compatibility relation itself (a function over type objects) and the correctness of each individual validator's predicate; position independence is argued from the wiring, not tested."
 
